@@ -112,16 +112,16 @@ def bijective_name(i, chars):
 # option spaces -------------------------------------------------------------------------------------------
 
 NAME_CHARSETS = {'lower': ascii_lowercase, 'upper': ascii_uppercase, 'abc': 'abc', 'atm': 'atm', 'mta': 'mta',
-                 'custom27': CUSTOM27}
+                 'custom27': CUSTOM27, 'one': 'a'}
 
 # (chars argument, case argument) handed to rectangular(); the effective alphabet is uniq(casefn(chars))
-RECT_CHARSETS = {'lower': (ascii_lowercase, None), 'lower-u': (ascii_lowercase, 'u'), 'upper-l': (ascii_uppercase, 'l'),
+RECT_CHARSETS = {'one': ('a', None), 'upper': (ascii_uppercase, None), 'lower': (ascii_lowercase, None), 'lower-u': (ascii_lowercase, 'u'), 'upper-l': (ascii_uppercase, 'l'),
                  'abc': ('abc', None), 'atm': ('atm', None), 'abcab': ('abcab', None), 'custom27': (CUSTOM27, None),
                  # the same letter in both cases: repeats appear only after the case option has been applied
                  'mixed12': ('qwertyQWERTY', None), 'mixed12-u': ('qwertyQWERTY', 'u'), 'mixed12-l': ('qwertyQWERTY', 'l'),
                  'letters52': (ascii_letters, None), 'letters52-u': (ascii_letters, 'u'), 'letters52-l': (ascii_letters, 'l')}
 
-OTHER_CHARSET = {'lower': 'upper', 'upper': 'lower', 'abc': 'atm', 'atm': 'abc', 'mta': 'abc', 'custom27': 'lower'}
+OTHER_CHARSET = {'lower': 'upper', 'upper': 'lower', 'abc': 'atm', 'atm': 'abc', 'mta': 'abc', 'custom27': 'lower', 'one': 'abc'}
 
 
 def effective_chars(chars, case):
